@@ -963,6 +963,7 @@ fn attack_c02(c: &mut Ctx, op: &'static str) -> Result<(), String> {
         }
     }
     let inj = Rc::new(RefCell::new(inj));
+    let session_was_r1 = c.session_room.is_none();
     let end = run_session(c, Some(inj.clone()))?;
     let fired = inj.borrow().fired.clone();
     c.w.fault(&format!("byz_{op}"));
@@ -972,6 +973,16 @@ fn attack_c02(c: &mut Ctx, op: &'static str) -> Result<(), String> {
         return Ok(());
     }
     c.w.probe(&format!("applied_{op}"));
+    // "what else is in the batch makes no difference": the honest rows served in the same session were stored
+    if matches!(end, SessionEnd::Ok) && session_was_r1 {
+        let dh = oracle::dump_room(&c.w.nodes[H].oracle_conn()?, &r1)?;
+        let dvv = oracle::dump_room(&c.w.nodes[V].oracle_conn()?, &r1)?;
+        let have: HashSet<Vec<u8>> = dvv.nodes.iter().map(|n| n.signature.clone()).collect();
+        let tampered: Option<Uid> = inj.borrow().tamper.as_ref().map(|t| t.0);
+        if let Some(n) = dh.nodes.iter().find(|n| !have.contains(&n.signature) && Some(n.id.as_slice()) != tampered.as_ref().map(|t| t.as_slice())) {
+            viol02(c, &format!("honest-rows-of-the-same-batch-not-stored/{op}"), format!("the session ended normally but V did not store an honest row served together with the injected ones: {}", crate::kit::cut(&n.line(), 160)));
+        }
+    }
     for ((id, legit), before) in crafted.into_iter().zip(before.into_iter()) {
         let found: Vec<String> = present_anywhere(c, V, &id)?.into_iter().filter(|t| !before.contains(t)).collect();
         if !legit && !found.is_empty() {
